@@ -34,7 +34,7 @@ def recoveryVerdict (s : St) (d : Disk) (impl : String) : String :=
         else if persist != "same" then "JUDGE vote/log/purge position changed across the restart"
         else if field pre "vote" != some acked then
           s!"JUDGE the recovered vote {(field pre "vote").getD "?"} is not the last vote save_vote acknowledged ({acked})"
-        else match judgeLogLine pre with
+        else match (judgeLogLine pre).orElse (fun _ => judgeHoles pre) with
           | some why => "JUDGE " ++ why
           | none =>
             match reopen d with
